@@ -1,5 +1,5 @@
 CONSTANT Inputs <- FileInputs
 INIT Init
 NEXT Next
-INVARIANTS TypeOK InvPlacement InvSandbox InvLimits InvIngress InvEgress InvIngressOther InvEgressOther InvPositive InvComplete InvTornDown
+INVARIANTS TypeOK InvPlacement InvSandbox InvLimits InvIngress InvEgress InvIngressOther InvEgressOther InvPositive InvComplete InvNoLeftovers InvTornDown
 PROPERTIES Isolation
